@@ -174,3 +174,15 @@ plan("C18", "c18.py", "signatures (every parameter kind, defaults, colliding nam
      "boltons.funcutils.wraps / inspect.getcallargs library contracts: bounded driver only (known findings C18-F1, F3, F5).",
      "Trusted: inspect.getcallargs = Python's own binding, boltons.funcutils.wraps (cross-checked by the driver: findings), UserCode rely, E13. "
      "Known findings C18-F1..F5.")
+
+plan("C20", "c20.py", "messages x timestamps x field names/values; input streams mixing Eliot lines, junk bytes, JSON scalars/arrays/incomplete objects; filter expressions, on the real code",
+     "Proof: pretty_format renders the type/status fields first and then every remaining field of the message exactly once (loop invariant "
+     "REST == filter_out(enumeration, header fields) over an arbitrary enumeration of the keys); compact_format accepts every message and does "
+     "not touch it; eliot-prettyprint's per-line body never raises for any bytes line -- non-JSON (ValueError family, RecursionError), JSON "
+     "non-objects and objects lacking required fields are each reported with exactly one output record and processing continues (NOUT == "
+     "number of lines); EliotFilter.run writes one output line per input line except exactly those whose expression value is SKIP, and "
+     "_evaluate hands the expression J, SKIP, datetime and timedelta. The rendered text itself (pprint, isoformat, json.dumps) is library "
+     "behaviour: bounded driver only.",
+     "Trusted: pprint.pformat / json.dumps / json.loads / datetime contracts (returns text; loads raises ValueError subclasses or "
+     "RecursionError only; object keys are str), argparse, the stream model. Known findings C20-F1 (backslash-n rendering), C20-F2 "
+     "(ill-typed required fields abort the formatter: assumed away in _main's contract).")
